@@ -174,6 +174,7 @@ func (w *World) RunHarness(pkg, fn string, opts *RunOpts, pool *SolverPool, work
 		go func() {
 			defer wg.Done()
 			solver := pool.New()
+			defer solver.Close() // (its counters stay readable for the pool's statistics)
 			ex := NewExec(w.ld, solver, w.hooks, opts)
 			ex.abort = &abort
 			ex.emit = func(np []int) {
